@@ -76,7 +76,24 @@ func VerifH_C14_Group() {
 // VerifH_C14_GroupErrors: a key that is not a string, and the same key from two pairs, are errors;
 // members whose value is absent are omitted.
 func VerifH_C14_GroupErrors() {
-	switch verifChoose(4) {
+	switch verifChoose(6) {
+	case 4: // literal pair first, computed pair second, several items (the key may come from a later item)
+		k1, k2 := hSafeString(1), hSafeString(1)
+		arr := []interface{}{map[string]interface{}{"k": k1, "v": 1.0}, map[string]interface{}{"k": k2, "v": 2.0}}
+		got := hEval(`items{"a": $count(v), k: $sum(v)}`, map[string]interface{}{"items": arr})
+		if k1 == "a" || k2 == "a" {
+			verifAssert(got.kind == oEvalError && got.etype == ErrDuplicateKey, "group-literal-then-computed-duplicate-is-error")
+		} else {
+			verifAssert(got.kind == oValue, "group-literal-and-computed-pairs")
+		}
+	case 5: // the same in a plain object constructor
+		k := hSafeString(1)
+		got := hEval(`{"a": 1, k: 2}`, map[string]interface{}{"k": k})
+		if k == "a" {
+			verifAssert(got.kind == oEvalError && got.etype == ErrDuplicateKey, "constructor-literal-then-computed-duplicate-is-error")
+		} else {
+			verifAssert(got.kind == oValue && reflect.DeepEqual(got.val, map[string]interface{}{"a": 1.0, k: 2.0}), "constructor-two-pairs")
+		}
 	case 0:
 		arr := []interface{}{map[string]interface{}{"k": hFinite(), "v": 1.0}}
 		got := hEval(`items{k: v}`, map[string]interface{}{"items": arr})
@@ -150,7 +167,33 @@ func VerifH_C14_ObjectFunctions() {
 	o, ks, vs := c14Object()
 	doc := map[string]interface{}{"o": o}
 	n := len(ks)
-	switch verifChoose(7) {
+	switch verifChoose(8) {
+	case 7: // $keys over an array of objects lists each distinct name exactly once
+		m := 1 + verifChoose(verifParam("OBJS", 4))
+		names := []string{"a", "b", "c"}
+		objs := make([]interface{}, m)
+		present := map[string]bool{}
+		for i := range objs {
+			om := map[string]interface{}{}
+			for _, nm := range names {
+				if verifBool() {
+					om[nm] = float64(i)
+					present[nm] = true
+				}
+			}
+			objs[i] = om
+		}
+		got := hEval(`$keys(objs)`, map[string]interface{}{"objs": objs})
+		if len(present) == 0 {
+			verifAssert(got.kind == oUndefined, "keys-of-empty-objects")
+			return
+		}
+		verifAssert(got.kind == oValue, "keys-array-evaluates")
+		set, ok := c14StringSet(got.val)
+		verifAssert(ok && len(set) == len(present), "keys-array-each-once")
+		for nm := range present {
+			verifAssert(set[nm] == 1, "keys-array-each-once")
+		}
 	case 0: // $keys lists each member name exactly once
 		got := hEval(`$keys(o)`, doc)
 		if n == 0 {
